@@ -9,8 +9,8 @@ PROPS = {
     "C05": [lambda ctx, rep: r9.rule_R9(ctx, rep, only=["yaep_parse"]), r9.rule_ambiguity_writers, r15.rule_R15, c03.rule_candidates,
             c10.rule_fixpoints, r21.rule_R21_dedupe, r22.rule_R22_context, r22.rule_R22_lookahead, r22.rule_R22_phases],
     "C01": [r6.rule_R6_flags, r6.rule_R6_debug, r7.rule_T3, c10.rule_fixpoints, r15.rule_R15, r20.rule_R20, r21.rule_R21, r21.rule_R21_dedupe, r22.rule_R22_context, r22.rule_R22_lookahead, r22.rule_R22_boundaries, r22.rule_R22_cache_key, r22.rule_R22_bit_tests, r22.rule_R22_phases],
-    "C03": [c03.rule_table_complete, c03.rule_origins_followed, c03.rule_alt_not_alt, c03.rule_candidates, c03.rule_reuse, c03.rule_copy_consistency, c03.rule_parent_state, c03.rule_slot_pairing, c03.rule_list_owner, r20.rule_R20_dag, r7.rule_translation_reading, r13.rule_births, r15.rule_R15, r21.rule_R21, c10.rule_fixpoints],
-    "C02": [c03.rule_copy_consistency, c03.rule_parent_state, c03.rule_slot_pairing, c03.rule_list_owner, r7.rule_T1, r7.rule_translation_reading, r13.rule_births, r4.rule_R4d, r13.rule_R13_marks, r12.rule_R1c],
+    "C03": [c03.rule_table_complete, c03.rule_origins_followed, c03.rule_alt_not_alt, c03.rule_candidates, c03.rule_reuse, c03.rule_copy_consistency, c03.rule_parent_state, c03.rule_parent_disp, c03.rule_slot_pairing, c03.rule_list_owner, r20.rule_R20_dag, r7.rule_translation_reading, r13.rule_births, r15.rule_R15, r21.rule_R21, c10.rule_fixpoints],
+    "C02": [c03.rule_copy_consistency, c03.rule_parent_state, c03.rule_parent_disp, c03.rule_slot_pairing, c03.rule_list_owner, r7.rule_T1, r7.rule_translation_reading, r13.rule_births, r4.rule_R4d, r13.rule_R13_marks, r12.rule_R1c],
     "C06": [r7.rule_T3, r7.rule_first_ignored, r16.rule_back_cost, r5.rule_token_intake, r7.rule_T1, r15.rule_R15, r22.rule_R22_lookahead, c10.rule_fixpoints, r16.rule_total_loss],
     "C09": [r6.rule_R6_debug, r5.rule_setters, r12.rule_R12, r15.rule_R15, c10.rule_fixpoints, r20.rule_R20, r21.rule_R21_dedupe, r22.rule_R22_context, r22.rule_R22_lookahead, r22.rule_R22_cache_key, r22.rule_R22_bit_tests],
     "C10": [r20.rule_R20_symbols, c10.rule_code_table, c10.rule_fixpoints, r5.rule_undefined_typestate, r2e.rule_R2e, r5.rule_parse_entry],
